@@ -27,6 +27,10 @@ Semantics of one point, after `cancel`:
 * `join ok`    - a wait for other goroutines: `errgroup.Wait` whose joined functions are all walked in place as part of
                  this worker (`ok = true`: as good as their points, which are in the table), or a `WaitGroup.Wait` /
                  `Cond.Wait` on something the table knows nothing about (`ok = false`: never enabled).
+* `spawn`      - a `go` statement whose goroutine is NOT joined before the worker returns: the statement itself completes at
+                 once, but it leaves an *orphan* - an activity of the node that `Run`'s `wg.Wait()` does not cover.  The
+                 state counts the live orphans; an orphan ends when the environment says so (`Act.orphanExit`: the model
+                 knows nothing about what it does); `finished` requires that none is left.
 `for range ch` and `select {}` are plain receives (`recv ch false`).
 -/
 namespace Shutdown
@@ -44,6 +48,7 @@ inductive BP
   | errSend
   | lock (m : Nat) (free : Bool)
   | join (ok : Bool)
+  | spawn
   deriving DecidableEq, Repr, Inhabited
 
 /-- a point that cannot park a worker for ever once the context is cancelled (`errSend` is judged separately,
@@ -56,6 +61,7 @@ def BP.guarded : BP → Bool
   | .errSend => true
   | .lock _ f => f
   | .join ok => ok
+  | .spawn => false
 
 structure Cfg where
   cap : Chan → Nat
@@ -81,6 +87,7 @@ structure St where
   cancelled : Bool
   parentCancelled : Bool
   phase : Phase
+  orphans : Nat := 0     -- live goroutines started by workers and joined by nobody
 
 inductive Move | next (p : BP) | ret
   deriving DecidableEq, Repr, Inhabited
@@ -92,11 +99,13 @@ inductive Act
   | runParent                       -- Run's select takes `<-parentCtx.Done()`
   | join                            -- `wg.Wait()` returns, Run returns
   | parentCancel                    -- ENVIRONMENT: the node is asked to stop
+  | orphanExit                      -- ENVIRONMENT: an un-joined goroutine ends (when, the model cannot say)
   deriving DecidableEq, Repr, Inhabited
 
 def Act.isEnv : Act → Bool
   | .elapse _ _ => true
   | .parentCancel => true
+  | .orphanExit => true
   | _ => false
 
 def inc (f : Chan → Nat) (c : Chan) : Chan → Nat := fun x => if x = c then f x + 1 else f x
@@ -111,6 +120,7 @@ def opEnabled (cfg : Cfg) (lvl : Chan → Nat) : BP → Bool
   | .errSend => decide (lvl .errCh < cfg.cap .errCh)
   | .lock _ f => f
   | .join ok => ok
+  | .spawn => true
 
 def opEffect (cfg : Cfg) (lvl : Chan → Nat) : BP → (Chan → Nat)
   | .send ch _ => if lvl ch < cfg.cap ch then inc lvl ch else lvl
@@ -144,9 +154,15 @@ def stEffect (cfg : Cfg) (lvl : Chan → Nat) : WSt → (Chan → Nat)
   | .at p _ => opEffect cfg lvl p
   | _ => lvl
 
+/-- completing a `spawn` point leaves one more orphan -/
+def stSpawns : WSt → Nat
+  | .at .spawn _ => 1
+  | _ => 0
+
 def allDone (ws : List W) : Bool := ws.all fun w => w.st == .done
 
-def finished (s : St) : Bool := allDone s.ws && s.phase == .returned
+/-- the node has shut down WITH ALL ITS ACTIVITY: every worker returned, `Run` returned, no un-joined goroutine left -/
+def finished (s : St) : Bool := allDone s.ws && s.phase == .returned && s.orphans == 0
 
 def step (cfg : Cfg) (s : St) : Act → Option St
   | .work i mv =>
@@ -156,7 +172,8 @@ def step (cfg : Cfg) (s : St) : Act → Option St
       if stEnabled cfg s.lvl w.st then
         match after cfg s.cancelled w.prog w.st mv with
         | none => none
-        | some st' => some { s with ws := s.ws.set i { w with st := st' }, lvl := stEffect cfg s.lvl w.st }
+        | some st' => some { s with ws := s.ws.set i { w with st := st' }, lvl := stEffect cfg s.lvl w.st,
+                                    orphans := s.orphans + stSpawns w.st }
       else none
   | .elapse i mv =>
     match s.ws[i]? with
@@ -180,6 +197,8 @@ def step (cfg : Cfg) (s : St) : Act → Option St
     if s.phase = .joining ∧ allDone s.ws = true then some { s with phase := .returned } else none
   | .parentCancel =>
     if s.parentCancelled = false then some { s with parentCancelled := true } else none
+  | .orphanExit =>
+    if 0 < s.orphans then some { s with orphans := s.orphans - 1 } else none
 
 def exec (cfg : Cfg) : St → List Act → Option St
   | s, [] => some s
@@ -206,7 +225,7 @@ def Dead (cfg : Cfg) (s : St) : Prop := ∀ a, step cfg s a = none
 
 def wμ (cfg : Cfg) : WSt → Nat
   | .idle => 2 * cfg.budget + 3
-  | .at p left => 2 * left + (if p = .ctxSelect then 1 else 2)
+  | .at p left => 2 * left + (if p = .ctxSelect then 1 else if p = .spawn then 3 else 2)
   | .done => 0
 
 def wsμ (cfg : Cfg) : List W → Nat
@@ -218,7 +237,7 @@ def phaseμ : Phase → Nat
 
 /-- number of steps that can still happen after cancel -/
 def μ (cfg : Cfg) (s : St) : Nat :=
-  wsμ cfg s.ws + phaseμ s.phase + (if s.parentCancelled then 0 else 1)
+  wsμ cfg s.ws + phaseμ s.phase + (if s.parentCancelled then 0 else 1) + s.orphans
 
 /-! ## static judgement of a table -/
 
@@ -269,6 +288,7 @@ def bpOf (kind chan : Nat) (flag : Bool) : BP :=
   | 4 => .errSend
   | 5 => .lock chan flag
   | 6 => .join flag
+  | 7 => .spawn
   | _ => .join false   -- a kind this model does not know: unguarded
 
 abbrev RawPoint := Nat × Nat × Nat × Bool
